@@ -282,6 +282,12 @@ func SimpleValue(t *Token, r *Rng) string {
 		return string(b)
 	}
 	cands := []string{gen(digits, r.Range(1, 3)), gen(letters, r.Range(1, 3)), gen(digits+letters, r.Range(2, 4))}
+	if t.Rule == "min5" {
+		cands = append(cands, gen(letters, 6), gen(digits, 5))
+	}
+	if strings.HasSuffix(t.Rule, "+a") {
+		cands = append(cands, gen(digits, r.Range(1, 3))+"a")
+	}
 	if strings.Contains(t.Rule, "|") { // alternation of literal words over the value alphabet
 		alts := strings.Split(t.Rule, "|")
 		cands = append(cands, alts[r.Intn(len(alts))])
